@@ -257,6 +257,9 @@ func c05Prop(t vpT, c c05Case) (nontrivial bool, classes []string, tests int) {
 	if fitsAll {
 		classes = append(classes, "all-fit")
 	}
+	if root.wideLevel() {
+		classes = append(classes, "level-values-over-2^31-apart")
+	}
 	if s.Budget == 0 && len(root.Rows) > 0 {
 		classes = append(classes, "zero-budget-at-sampled-level")
 	} else if s.Budget <= 4 && len(root.Kids) > 0 && !root.Kids[len(root.Kids)-1].leaf() {
